@@ -67,6 +67,7 @@ static void exec_c11(const plan_t *p)
             if (inited) continue;
             base_serial = sa_serial(); base_live = sa_live_count();
             conf_reset_mirror();
+            simfs_set_call_failures((int)plan_get(p, "fdopen.fail", 0), (int)plan_get(p, "fchmod.fail", 0));      /* every cycle meets the same refusals, so a repeated cycle is still comparable */
             spifconf_init_subsystem();
             inited = 1; cycle++; cycle_from = conf_trace_count(); cycle_ops = 1469598103934665603ULL;
             tr_printf("init cycle %d", cycle);
@@ -268,6 +269,15 @@ static void gen_conf_file(plan_t *p, rng_t *r, const char *name, int allow_exec,
                 static const char *shr[] = { "${NOSUCH}", "$NOSUCH", "%get(nokey)", "$(EMPTY)", "${NOSUCH}${NOSUCH_TOO} x", "$NOSUCH missing.cfg", "${NOSUCH}\"", "" };
                 add("%%%s%sinclude%s %s\n", gap[rng_below(r, 4)], qt[rng_below(r, 3)], rng_chance(r, 1, 4) ? qt[rng_below(r, 2)] : "", shr[rng_below(r, 8)]);
             }
+            else if (c < 80 && rng_chance(r, 1, 2)) {
+                /* shapes picked from the coverage report (tools/coverage.py): built-ins called with the wrong number of words, the
+                   "%name )" spelling, built-ins that yield an empty text, a directive without its argument, a directory that is not there,
+                   a variable deleted from the middle of the list */
+                static const char *odd[] = { "x %get() y", "x %get(a b c) y", "%put()", "%put(k1)", "%put(k1 v w)", "x %dirscan() y", "x %dirscan(a b) y", "x %dirscan(/cfg/nodir) y",
+                    "x %version ) y", "x %appname ) tail) y", "x %get ) k1) y", "%put ) k2 v2)", "x %random ) y", "x %random() y", "x %get($NOSUCH) y", "x %get(nokey) y",
+                    "%include", "%include ", "% include", "%preproc", "%", "%%", "x %", "%put(k2 mid)", "%put(\"k2\\\" b)", "%put(k1 '')", "x %get(k1) y" };
+                add("%s\n", odd[rng_below(r, sizeof(odd) / sizeof(odd[0]))]);
+            }
             else if (c < 80) add("%%xb%d(arg %d)\n", rng_range(r, 7, 12), q);
             else if (c < 83) add("%%nosuchbuiltin(a b)\n");
             else if (c < 86) add("v $V1 ${HOME} $(EMPTY) $NOSUCH ~ ~/x \\t\\n \n");
@@ -319,6 +329,8 @@ static void gen_c11(plan_t *p, rng_t *r)
     plan_knob(p, "alloc.realloc", rng_range(r, 0, 2));
     plan_knob(p, "alloc.reuse", rng_range(r, 0, 2));
     plan_knob(p, "mkstemp.mode", rng_chance(r, 1, 2) ? 0600 : 0666);
+    if (rng_chance(r, 1, 8)) plan_knob(p, "fdopen.fail", rng_range(r, 1, 3));       /* the k-th fdopen() of the run finds no stream to be had */
+    if (rng_chance(r, 1, 8)) plan_knob(p, "fchmod.fail", rng_range(r, 1, 3));       /* the k-th fchmod() is refused */
     plan_knob(p, "tmpdir", rng_chance(r, 1, 3) ? (rng_chance(r, 1, 3) ? rng_range(r, 2, 3) : rng_chance(r, 1, 4) ? rng_range(r, 4, 5) : 1) : 0);
     if (plan_get(p, "tmpdir", 0) == 2 || plan_get(p, "tmpdir", 0) == 3) { static const int tl[] = { 200, 225, 230, 235, 238, 239, 240, 241, 242, 243, 244, 245, 249, 250, 255, 256, 300 }; plan_knob(p, "tmpdir.len", tl[rng_below(r, 17)]); }
     if (rng_chance(r, 1, 10)) { static const int el[] = { 120, 127, 128, 300, 4096, 20470, 20478, 20479, 20480, 20481, 30000, 65000 }; plan_knob(p, rng_chance(r, 1, 2) ? "env.v1len" : "env.homelen", el[rng_below(r, 12)]); }
